@@ -160,6 +160,7 @@ struct vp_rx_script {
     uint8_t oct[LMAX];
     uint8_t err_after;    /* if < len: the source fails after this many octets */
     int32_t err;          /* ... with this (negative) value */
+    uint8_t split;        /* VP_RX_CHUNKED: the frame arrives as two chunks oct[0..split) oct[split..len) */
 };
 static struct vp_rx_script vp_rx;
 static unsigned vp_rx_calls;
@@ -170,6 +171,25 @@ static unsigned vp_rx_calls;
 static ssize_t vp_deliver(Sink *sink)
 {
     vp_rx_calls++;
+#ifdef VP_RX_CHUNKED
+    /* A source with the getbuffer extension makes sts_n() hand the sink whole
+     * chunks (sink_put_chunk) instead of single octets; that is the other way
+     * the real length-prefix deframer can deliver. Two chunks, split anywhere. */
+    {
+        const unsigned s0 = vp_rx.split < vp_rx.len ? vp_rx.split : vp_rx.len;
+        if (s0 > 0) {
+            const ssize_t r = sink_put_chunk(sink, vp_rx.oct, s0);
+            if (r < 0)
+                return r;
+        }
+        if (vp_rx.len - s0 > 0) {
+            const ssize_t r = sink_put_chunk(sink, vp_rx.oct + s0, vp_rx.len - s0);
+            if (r < 0)
+                return r;
+        }
+        return (ssize_t)vp_rx.len;
+    }
+#endif
     for (unsigned i = 0; i < LMAX; ++i) {
         if (i >= vp_rx.len)
             break;
